@@ -191,6 +191,28 @@ theorem c20a_exc_only_after_shutdown (h : Reach (init hnd failAt closes inbound 
     (s.excRep ≤ 1) ∧ (0 < s.excRep → s.poolShut = true ∧ (s.r = .exc ∨ s.r = .done)) := by
   exact ⟨(inv_reach h).c.exc1, (inv_reach h).c.exc⟩
 
+set_option linter.unnecessarySimpa false in
+theorem lines_prefix_takeWhile (l : List Nat) (t : List Msg) :
+    l.map Msg.line <+: (l.map Msg.line ++ t).takeWhile (fun m => m != Msg.pill) := by
+  induction l with
+  | nil => simp
+  | cons x xs ih => simpa using ih
+
+/-- **Nothing enqueued behind a stop pill is ever written**: at every moment what has been written is a prefix of what was
+    enqueued before the first `close()` put its pill — the writer never overtakes the pill, whatever tasks and adapter threads
+    go on enqueueing afterwards, and whether or not a write fails. -/
+theorem c20a_nothing_after_pill (h : Reach (init hnd failAt closes inbound peerFault) s) :
+    s.wrote.map Msg.line <+: s.enq.takeWhile (fun m => m != Msg.pill) := by
+  have hf := c20a_fifo h
+  cases hw : s.w with
+  | get => rw [hw] at hf; simp only at hf; rw [← hf]; exact lines_prefix_takeWhile _ _
+  | send n => rw [hw] at hf; simp only at hf; rw [← hf]; exact lines_prefix_takeWhile _ _
+  | done =>
+    rw [hw] at hf; simp only at hf
+    rcases hf with hf | ⟨⟨n, hf⟩, _⟩
+    · rw [← hf]; exact lines_prefix_takeWhile _ _
+    · rw [← hf]; exact lines_prefix_takeWhile _ _
+
 -- non-vacuity (tests, labelled as such): the reader blocked in recv while the application closes twice; nothing reported
 example : (run (init .absent none 2 [[.init, .task]] false)
     [.rd, .rd, .rd, .rd, .wr, .wr, .rd, .app, .app, .wr, .wr, .tenq, .tfin, .wr, .app, .app, .app, .app, .rd,
